@@ -172,6 +172,9 @@ def evaluate(ctx, results, tag):
   for i, r in enumerate(results):
     if "exc" in r:
       continue
+    if not all(s["finite"] for s in r["steps"]):
+      r["exc"] = "non-finite update from finite gradients (blocked / separate / with companions)"
+      continue
     terms.append(ds_term(r) if r["case"]["kind"] == "ds" else tf_term(r))
     idx.append(i)
   vals = ctx.coq_eval(tag, HEADER, terms, per_shard=max(2, len(terms) // (3 * common.NPROC) + 1),
